@@ -43,10 +43,21 @@ Definition ok_alias (c : ctx_table) (n : name) : bool :=
 Definition ok_valid (c : ctx_table) (n : name) : bool :=
   forallb (fun a => opt_str_eqb (memoize c a) (memoize c n)) (alts_of c n) &&
   forallb (fun a => implb (opt_str_eqb (memoize c a) (memoize c n)) (mem a (alts_of c n))) (accepted c).
-Definition ok_special (c : ctx_table) (l : loc) (n : name) : bool :=
-  match find_arm n (ct_get c) with
-  | Some g => loc_eqb g l && loc_ok l
-  | None => false
+(* a dedicated accessor's body is a plain read when it is one location under widening
+   casts only: no mask, no flag test, no other field *)
+Fixpoint plain_read (e : aexp) : option loc :=
+  match e with
+  | ALoc l => Some l
+  | ACast a from to => if from <=? to then plain_read a else None
+  | _ => None
+  end.
+Definition acc_loc (e : aexp) : loc := match plain_read e with Some l => l | None => dummy_loc end.
+Definition ct_sp_loc (c : ctx_table) : loc := acc_loc (ct_sp_acc c).
+Definition ct_ip_loc (c : ctx_table) : loc := acc_loc (ct_ip_acc c).
+Definition ok_special (c : ctx_table) (acc : aexp) (n : name) : bool :=
+  match find_arm n (ct_get c), plain_read acc with
+  | Some g, Some l => loc_eqb g l && loc_ok l
+  | _, _ => false
   end && is_some (memoize c n).
 Definition ok_register (c : ctx_table) (r : name) : bool :=
   opt_str_eqb (memoize c r) (Some r) && (count r (ct_registers c) =? 1).
@@ -66,10 +77,10 @@ Definition diagnose (c : ctx_table) : list (name * string * name) :=
        (ok_valid c) (accepted c) ++
   diag c "register_is_valid has an arm for a name memoize_register rejects"%string
        (fun n => is_some (memoize c n)) (names_of (ct_groups c)) ++
-  diag c "stack_pointer_register_name disagrees with MinidumpContext::get_stack_pointer"%string
-       (ok_special c (ct_sp_loc c)) [ct_sp_name c] ++
-  diag c "instruction_pointer_register_name disagrees with MinidumpContext::get_instruction_pointer"%string
-       (ok_special c (ct_ip_loc c)) [ct_ip_name c] ++
+  diag c "MinidumpContext::get_stack_pointer is not a plain read of the location stack_pointer_register_name denotes (another location, a mask, or a value that depends on another field)"%string
+       (ok_special c (ct_sp_acc c)) [ct_sp_name c] ++
+  diag c "MinidumpContext::get_instruction_pointer is not a plain read of the location instruction_pointer_register_name denotes (another location, a mask, or a value that depends on another field)"%string
+       (ok_special c (ct_ip_acc c)) [ct_ip_name c] ++
   diag c "REGISTERS entry is duplicated or memoize_register maps it to another name"%string
        (ok_register c) (ct_registers c) ++
   diag c "general_purpose_registers() is not this type's REGISTERS"%string
